@@ -3,6 +3,7 @@ import Nstd.Xml.LemmasEscape
 import Nstd.Xml.LemmasSafe
 import Nstd.Xml.LemmasRt3
 import Nstd.Xml.LemmasPos
+import Nstd.Xml.LemmasPos2
 import Nstd.Xml.LemmasComment
 import Nstd.Xml.LemmasPi
 import Nstd.Xml.EscapeMem
@@ -42,6 +43,31 @@ theorem error_pos_inside (bs : Bytes) (l c : Nat) (m : Msg) (h : parse bs = .err
 theorem error_pos_bounds (bs : Bytes) (l c : Nat) (m : Msg) (h : parse bs = .err l c m) :
     1 ≤ l ∧ l ≤ (cutNul bs).length + 1 ∧ 1 ≤ c ∧ c ≤ (cutNul bs).length + 1 :=
   (error_pos_inside bs l c m h).bounds
+
+/-- The same, spelled out: the reported pair is COMPUTED FROM THE TEXT for an offset `off ≤ length` the parser's
+    cursor stood at — line = 1 + number of line breaks (`\r\n`, `\r`, `\n`) in the first `off` bytes, column =
+    `off` − offset of the start of that line + 1 (`lineCol`, Spec.lean).  Every error of the model is raised at a
+    cursor / token position `p` as `.err p.line p.col` — exactly where Xml.cpp calls `syntaxError(pos, …)` — and
+    the proof carries `PosOK t p` (the cursor's line number and line start ARE the line state of its offset) through
+    every loop; so a stale line number or line start anywhere (e.g. a comment end remembered as a bare pointer)
+    would break this theorem. -/
+theorem error_pos_exact (bs : Bytes) (l c : Nat) (m : Msg) (h : parse bs = .err l c m) :
+    ∃ off, off ≤ (cutNul bs).length ∧ lineCol (cutNul bs) off = (l, c) :=
+  error_pos_inside bs l c m h
+
+/-- Positions recorded in the tree: for every byte string on which parsing succeeds, EVERY element of the result
+    (at any depth) carries as `line`/`column` the line and column — computed from the text by `lineCol` — of an
+    offset at which a `<` stands (`Elem.posOK`: the `<` that opened that element's start tag).  Comments, line
+    breaks of all three kinds, processing instructions and text in front of the element do not disturb it. -/
+theorem element_positions_exact (bs : Bytes) (e : Elem) (h : parse bs = .ok e) : e.posOK (cutNul bs) := by
+  have hg := parseDoc_pos (cutNul bs)
+  unfold parse at h
+  rw [h] at hg
+  exact hg
+
+/-- non-vacuity: in `<a>\n<b/></a>` the inner element is at line 2, column 1 -/
+example : parse [60, 97, 62, 10, 60, 98, 47, 62, 60, 47, 97, 62] =
+    .ok (.mk [97] 1 1 [] (.elem (.mk [98] 2 1 [] .nil) .nil)) := by rfl
 
 /-- non-vacuity: `<a>\n<` fails at line 2, column 2 (end of text) -/
 example : parse [60, 97, 62, 10, 60] = .err 2 2 .eof := by rfl
